@@ -51,7 +51,7 @@ def floors(tier):
     return {'evaluations': 30000, 'distinct_nontrivial': 10000, 'errors_located': 15000,
             'faults_injected': 20000, 'histkeys:fault': 9, 'legacy_api_errors': 3000,
             'custom_context_soups': 500, 'parser_class_context_soups': 1000, 'parses_from_configured_state': 2000,
-            'stop_condition_entry_points': 3000, 'bodies_without_their_closing_token': 300, 'module_level_function_calls': 3000, 'truncated_documents_parsed_before_injection': 500,
+            'stop_condition_entry_points': 3000, 'bodies_without_their_closing_token': 300, 'module_level_function_calls': 3000, 'faults_after_blank_before_nospace_marker': 200, 'truncated_documents_parsed_before_injection': 500,
             'failed_parse_inside_verbatim_then_stray_brace': 20, 'histkeys:numbering': 2, 'hist:numbering:line_number_offset': 5000}
 
 
@@ -120,7 +120,7 @@ def check_error(s, e, numbering=None):
 
 def check_case(case, rec):
     s = case['s']
-    ctx = work.ctx_for(case.get('ctx'))
+    ctx = work.ctx_for(case.get('ctx')) if case.get('ctx_obj') != 'nospace-markers' else nospace_marker_context()
     must_raise = case.get('must_raise', False)
     apis = case.get('apis', ['new', 'legacy'])
     if 'apis' not in case and len(s) % 4 == 1:
@@ -178,6 +178,51 @@ def shrink(v):
     return r.violations[0] if r.violations else v
 
 
+_NSM = []
+
+
+def nospace_marker_context():
+    """Macros whose optional marker arguments (star, tack-on character) do not allow blanks in front of them."""
+    if not _NSM:
+        from pylatexenc.macrospec import LatexContextDb, MacroSpec, EnvironmentSpec
+        from pylatexenc.latexnodes import LatexArgumentSpec
+        from pylatexenc.latexnodes.parsers import LatexStandardArgumentParser as SAP
+        db = LatexContextDb()
+        db.add_context_category('c', macros=[
+            MacroSpec('mk', [LatexArgumentSpec('{'), LatexArgumentSpec(SAP('*', allow_pre_space=False))]),
+            MacroSpec(';', [LatexArgumentSpec(SAP('*', allow_pre_space=False)), LatexArgumentSpec(SAP('[', allow_pre_space=False))]),
+            MacroSpec('tk', [LatexArgumentSpec(SAP('t+', allow_pre_space=False))]),
+            MacroSpec('textbf', '{')], environments=[EnvironmentSpec('ev', [LatexArgumentSpec(SAP('*', allow_pre_space=False))])])
+        db.set_unknown_macro_spec(MacroSpec(''))
+        db.set_unknown_environment_spec(EnvironmentSpec(''))
+        db.freeze()
+        _NSM.append(db)
+    return _NSM[0]
+
+
+def nospace_marker_context_faults(rng, rec):
+    ctx = nospace_marker_context()
+    docs = ['x \\mk{u} y', 'a \\; b', '\\textbf{x \\mk{u} y}', '\\; [2pt] c', '\\begin{ev} body\\end{ev}', 'p \\tk\\; q', '\\mk{a}* b',
+            '\\;* [x] y', '$a \\; b$']
+    for d in docs:
+        what, val, _ = strict_outcome(d, ctx, 'new')
+        rec.case()
+        if what != 'ok':
+            rec.monitor('unfaulted_document_rejected')
+            continue
+        # a single unmatched token right after a blank that follows a call whose next slot is such a marker
+        places = [i + 1 for i, ch in enumerate(d) if ch == ' ']
+        for b in places:
+            for f in FAULTS:
+                fault = f % 'zz' if '%s' in f else f
+                if d.startswith('$') and fault in ('$', '\\(', '\\[', '\\)', '\\]'):
+                    continue
+                s2 = d[:b] + fault + ' ' + d[b:]
+                rec.case()
+                rec.monitor('faults_after_blank_before_nospace_marker')
+                check_case({'s': s2, 'ctx_obj': 'nospace-markers', 'must_raise': True, 'fault': fault, 'at': b, 'apis': ['new']}, rec)
+
+
 def run_shard(desc, rec):
     rng = rng_for(desc)
     kind = desc['kind']
@@ -186,6 +231,7 @@ def run_shard(desc, rec):
             rec.case()
             check_case({'s': s}, rec)
     elif kind == 'soup':
+        nospace_marker_context_faults(rng, rec)
         for i, s in enumerate(work.soups(rng, desc['count'])):
             rec.case()
             if i % 500 == 0:
